@@ -115,11 +115,12 @@ def run(index, tier="quick", seed=0) -> Result:
     tiebreak = set()
     for d_ in _ast.walk(pfn.node):
         if isinstance(d_, _ast.FunctionDef) and d_ is not pfn.node and len(d_.args.args) == 3:
-            rets_ = [x for x in _ast.walk(d_) if isinstance(x, _ast.Return) and x.value is not None]
-            if len(rets_) == 1 and isinstance(rets_[0].value, _ast.Call) and _ast.unparse(rets_[0].value.func).endswith("where") \
-                    and sum(1 for x in _ast.walk(rets_[0].value) if isinstance(x, _ast.Call) and _ast.unparse(x.func).endswith("where")) == 2:
+            from ..astutil import returns as _returns
+            rets_ = [rv for (_r, rv) in _returns(d_)]
+            if len(rets_) == 1 and isinstance(rets_[0], _ast.Call) and _ast.unparse(rets_[0].func).endswith("where") \
+                    and sum(1 for x in _ast.walk(rets_[0]) if isinstance(x, _ast.Call) and _ast.unparse(x.func).endswith("where")) == 2:
                 a_, b_, c_ = [x.arg for x in d_.args.args]
-                outer, = [rets_[0].value]
+                outer, = [rets_[0]]
                 inner = [x for x in outer.args if isinstance(x, _ast.Call)]
                 if len(outer.args) == 3 and _ast.unparse(outer.args[1]) == a_ and inner and len(inner[0].args) == 3 \
                         and _ast.unparse(inner[0].args[1]) == b_ and _ast.unparse(inner[0].args[2]) == c_:
